@@ -208,9 +208,29 @@ impl<T: Sc, M: Mdl<T>> AnyProb<T, M> {
     ) -> Result<Self, String> {
         const PERMS: [[u8; 3]; 6] = [[0, 1, 2], [0, 2, 1], [1, 0, 2], [1, 2, 0], [2, 0, 1], [2, 1, 0]];
         let perm = PERMS[(order % 6) as usize];
+        // repeated setter calls ((order / 6) % 4: bit 0 = weights, bit 1 = observations): a
+        // first call with other (well-formed) values, then the permuted sequence with the
+        // real ones; the later call must simply replace the earlier one
+        let dup = (order / 6) % 4;
+        let w_other: Option<DVector<T>> = w.map(|w| {
+            let n = w.len();
+            DVector::from_iterator(n, (0..n).map(|i| w[n - 1 - i] * T::of(3.0) + T::of(0.5)))
+        });
+        let y_other: DMatrix<T> = {
+            let (n, c) = y.shape();
+            DMatrix::from_fn(n, c, |i, j| y[(n - 1 - i, j)] * T::of(-2.0) + T::of(1.0))
+        };
         macro_rules! finish {
-            ($b:expr, $obs:expr, $variant:ident) => {{
+            ($b:expr, $obs:expr, $obs_other:expr, $variant:ident) => {{
                 let mut b = $b;
+                if dup & 1 == 1 {
+                    if let Some(wo) = &w_other {
+                        b = b.weights(wo.clone());
+                    }
+                }
+                if dup & 2 == 2 {
+                    b = b.observations($obs_other);
+                }
                 for step in perm {
                     match step {
                         0 => b = b.observations($obs),
@@ -232,11 +252,12 @@ impl<T: Sc, M: Mdl<T>> AnyProb<T, M> {
             }};
         }
         let yv = || DVector::from_column_slice(y.column(0).clone_owned().as_slice());
+        let yov = || DVector::from_column_slice(y_other.column(0).clone_owned().as_slice());
         match (mrhs, par) {
-            (false, false) => finish!(LevMarProblemBuilder::new(model), yv(), SS),
-            (false, true) => finish!(LevMarProblemBuilder::new_parallel(model), yv(), SP),
-            (true, false) => finish!(LevMarProblemBuilder::mrhs(model), y.clone(), MS),
-            (true, true) => finish!(LevMarProblemBuilder::mrhs_parallel(model), y.clone(), MP),
+            (false, false) => finish!(LevMarProblemBuilder::new(model), yv(), yov(), SS),
+            (false, true) => finish!(LevMarProblemBuilder::new_parallel(model), yv(), yov(), SP),
+            (true, false) => finish!(LevMarProblemBuilder::mrhs(model), y.clone(), y_other.clone(), MS),
+            (true, true) => finish!(LevMarProblemBuilder::mrhs_parallel(model), y.clone(), y_other.clone(), MP),
         }
     }
 
